@@ -18,7 +18,8 @@ OUT = "/verif/lean/Jamm/Gen"
 
 # types that can hold a slice of the memory map (least fixpoint is re-derived in Lean from the fields;
 # this list only seeds `&[u8]`-returning accessors)
-MAPPED_SEED = {"Bytes"}
+MAPPED_SEED = {"Bytes", "Mmap"}
+MAP_OWNERS = {"DB", "DBInner", "OpenOptions"}
 
 
 def src_hash():
@@ -191,74 +192,99 @@ def gen_api():
     idx = a.idx
     types = {}  # name -> (lifetime params, field type name lists)
     methods = []
-    for k, v in idx.items():
-        inner = v["inner"]
-        kind = "struct" if "struct" in inner else ("enum" if "enum" in inner else None)
-        if not kind or v["name"] is None:
-            continue
-        body = inner[kind]
-        lts = [p["name"] for p in body["generics"]["params"] if "lifetime" in p["kind"]]
-        fields = []
-        if kind == "struct":
-            sk = body["kind"]
-            fids = sk.get("plain", {}).get("fields", []) if "plain" in sk else (sk.get("tuple", []) if "tuple" in sk else [])
-            for fid in fids:
-                fi = a.item(fid)
-                if fi and "struct_field" in fi["inner"]:
-                    fields.append(a.field_type_names(fi["inner"]["struct_field"]))
-        else:
-            for vid in body["variants"]:
-                vi = a.item(vid)
-                vk = vi["inner"]["variant"]["kind"]
-                fids = vk.get("tuple", []) if isinstance(vk, dict) and "tuple" in vk else (vk.get("struct", {}).get("fields", []) if isinstance(vk, dict) and "struct" in vk else [])
-                for fid in fids:
-                    fi = a.item(fid)
-                    if fi and "struct_field" in fi["inner"]:
-                        fields.append(a.field_type_names(fi["inner"]["struct_field"]))
-        types[v["name"]] = (lts, fields, v["visibility"] == "public")
-        surface = v["visibility"] == "public" or v["name"] == "Bytes"
-        if not surface:
-            continue
-        for iid in body["impls"]:
-            im = idx[str(iid)]["inner"]["impl"]
-            if im.get("is_synthetic") or im.get("blanket_impl"):
-                continue
-            tr = im["trait"]["path"].split("::")[-1] if im["trait"] else None
-            if tr in ("Debug", "PartialEq", "Eq", "PartialOrd", "Ord", "Hash", "Default", "StructuralPartialEq", "Display", "Error"):
-                continue
-            assoc = {}
-            for mid in im["items"]:
-                m = idx[str(mid)]
-                if "assoc_type" in m["inner"] and m["inner"]["assoc_type"].get("type"):
-                    assoc[m["name"]] = m["inner"]["assoc_type"]["type"]
-            # the receiver type of the impl may be a reference (`impl ToBytes for &BucketName`)
-            for_t = im["for"]
-            for_ref = "borrowed_ref" in for_t
-            for mid in im["items"]:
-                m = idx[str(mid)]
-                if "function" not in m["inner"]:
-                    continue
-                if not (m["visibility"] == "public" or tr):
-                    continue
-                sig = m["inner"]["function"]["sig"]
-                out_t = sig["output"]
-                has_self = bool(sig["inputs"]) and sig["inputs"][0][0] == "self"
-                self_by_ref = has_self and ("borrowed_ref" in sig["inputs"][0][1] or for_ref)
-                self_lt = None
-                if has_self and "borrowed_ref" in sig["inputs"][0][1]:
-                    self_lt = sig["inputs"][0][1]["borrowed_ref"].get("lifetime")
-                olts = a.lifetimes(out_t, lts, assoc)
-                if self_lt and self_lt in olts:
-                    olts.discard(self_lt)
-                    olts.add("'self")
-                mapped_names = {"KVPair", "Data", "BucketName", "Bucket", "Cursor", "Range", "Buckets", "KVPairs", "Bytes", "Tx", "&[u8]", "Self"}
-                mapped = a.mentions(out_t, mapped_names - ({"Self"} if v["name"] in ("DB", "OpenOptions") else set()), assoc)
-                methods.append({
-                    "owner": v["name"], "name": m["name"], "trait": tr or "", "forRef": for_ref,
-                    "hasSelf": has_self, "selfByRef": self_by_ref, "ownerLts": lts,
-                    "outLts": sorted(olts), "outMapped": mapped,
-                    "inputs": [n for n, _ in sig["inputs"]],
-                })
+    mapped_closure = set()
+    # two passes: the first collects the types, from which the set of types that can hold bytes of the memory
+    # map is computed as a closure over the private fields (seed: Bytes, Mmap; the owners of the map are
+    # excluded: holding the database handle borrows nothing); the second evaluates the method signatures
+    for pass_ in (1, 2):
+      if pass_ == 2:
+        known = set()
+        while True:
+            new = {n for n, (_, fl, _) in types.items() if n not in MAP_OWNERS and (n in MAPPED_SEED or any(x in MAPPED_SEED or x in known for f in fl for x in f))}
+            if new == known:
+                break
+            known = new
+        mapped_closure = known
+        methods = []
+      for k, v in idx.items():
+          inner = v["inner"]
+          kind = "struct" if "struct" in inner else ("enum" if "enum" in inner else None)
+          if not kind or v["name"] is None:
+              continue
+          body = inner[kind]
+          lts = [p["name"] for p in body["generics"]["params"] if "lifetime" in p["kind"]]
+          fields = []
+          if kind == "struct":
+              sk = body["kind"]
+              fids = sk.get("plain", {}).get("fields", []) if "plain" in sk else (sk.get("tuple", []) if "tuple" in sk else [])
+              for fid in fids:
+                  fi = a.item(fid)
+                  if fi and "struct_field" in fi["inner"]:
+                      fields.append(a.field_type_names(fi["inner"]["struct_field"]))
+          else:
+              for vid in body["variants"]:
+                  vi = a.item(vid)
+                  vk = vi["inner"]["variant"]["kind"]
+                  fids = vk.get("tuple", []) if isinstance(vk, dict) and "tuple" in vk else (vk.get("struct", {}).get("fields", []) if isinstance(vk, dict) and "struct" in vk else [])
+                  for fid in fids:
+                      fi = a.item(fid)
+                      if fi and "struct_field" in fi["inner"]:
+                          fields.append(a.field_type_names(fi["inner"]["struct_field"]))
+          types[v["name"]] = (lts, fields, v["visibility"] == "public")
+          surface = v["visibility"] == "public" or v["name"] == "Bytes"
+          if not surface:
+              continue
+          for iid in body["impls"]:
+              im = idx[str(iid)]["inner"]["impl"]
+              if im.get("is_synthetic") or im.get("blanket_impl"):
+                  continue
+              tr = im["trait"]["path"].split("::")[-1] if im["trait"] else None
+              if tr in ("Debug", "PartialEq", "Eq", "PartialOrd", "Ord", "Hash", "Default", "StructuralPartialEq", "Display", "Error"):
+                  continue
+              assoc = {}
+              for mid in im["items"]:
+                  m = idx[str(mid)]
+                  if "assoc_type" in m["inner"] and m["inner"]["assoc_type"].get("type"):
+                      assoc[m["name"]] = m["inner"]["assoc_type"]["type"]
+              # the receiver type of the impl may be a reference (`impl ToBytes for &BucketName`)
+              for_t = im["for"]
+              for_ref = "borrowed_ref" in for_t
+              for mid in im["items"]:
+                  m = idx[str(mid)]
+                  if "function" not in m["inner"]:
+                      continue
+                  if not (m["visibility"] == "public" or tr):
+                      continue
+                  sig = m["inner"]["function"]["sig"]
+                  out_t = sig["output"]
+                  has_self = bool(sig["inputs"]) and sig["inputs"][0][0] == "self"
+                  self_by_ref = has_self and ("borrowed_ref" in sig["inputs"][0][1] or for_ref)
+                  self_lt = None
+                  if has_self and "borrowed_ref" in sig["inputs"][0][1]:
+                      self_lt = sig["inputs"][0][1]["borrowed_ref"].get("lifetime")
+                  olts = a.lifetimes(out_t, lts, assoc)
+                  if self_lt and self_lt in olts:
+                      olts.discard(self_lt)
+                      olts.add("'self")
+                  # a lifetime introduced by the METHOD's own generics that no input mentions is chosen freely by
+                  # the caller: it bounds nothing, whatever its name
+                  for gp in m["inner"]["function"].get("generics", {}).get("params", []):
+                      if "lifetime" in gp.get("kind", {}) and gp["name"] in olts:
+                          used = False
+                          for _, it in sig["inputs"]:
+                              if gp["name"] in a.lifetimes(it, lts, assoc) or (isinstance(it, dict) and "borrowed_ref" in it and it["borrowed_ref"].get("lifetime") == gp["name"]):
+                                  used = True
+                          if not used:
+                              olts.discard(gp["name"])
+                              olts.add("'free")
+                  mapped_names = mapped_closure | {"&[u8]", "Self", "KVPairs"}
+                  mapped = a.mentions(out_t, mapped_names - ({"Self"} if v["name"] in ("DB", "OpenOptions") else set()), assoc)
+                  methods.append({
+                      "owner": v["name"], "name": m["name"], "trait": tr or "", "forRef": for_ref,
+                      "hasSelf": has_self, "selfByRef": self_by_ref, "ownerLts": lts,
+                      "outLts": sorted(olts), "outMapped": mapped,
+                      "inputs": [n for n, _ in sig["inputs"]],
+                  })
     methods.sort(key=lambda m: (m["owner"], m["trait"], m["name"], m["forRef"]))
 
     def q(s):
